@@ -1,5 +1,6 @@
 #include "common.hpp"
 #include <boost/asio/error.hpp>
+#include <unistd.h>
 
 namespace vh {
 
@@ -103,5 +104,8 @@ int main(int argc, char** argv)
 		return 2;
 	}
 	std::setvbuf(stdout, nullptr, _IOFBF, 1 << 16);
+	// wall-clock limit per process (the drivers split work so that no chunk
+	// legitimately needs this long): a hang becomes a non-zero exit
+	if (char const* lim = std::getenv("VH_WALL_LIMIT")) alarm(unsigned(std::atoi(lim)));
 	return it->second(argc - 1, argv + 1);
 }
